@@ -97,6 +97,9 @@ class StubRNG(object):
     def _name(self, what):
         n = 'rng%d_%d_%s' % (self.stream, self.draws, what)
         self.draws += 1
+        if self.stream >= 900:
+            # a draw from a generator that was created without a seed
+            W.unseeded_draws = getattr(W, 'unseeded_draws', 0) + 1
         return n
 
     def value_of(self, draw, what, i):
@@ -288,6 +291,7 @@ class WorldBase(object):
     def __init__(self):
         self.warnings = []
         self.unseeded = 0
+        self.unseeded_draws = 0
         self._stream = 100
         self._clock_n = 0
         self.notes = []
